@@ -2,7 +2,7 @@
 stream, ill-typed stream, cyclic stream) ends in a document or a located error; panics,
 aborts, stack overflows and hangs are violations unless they fall in a recorded class."""
 import json
-from . import core, progs, known, cyc
+from . import core, progs, known, cyc, evaltie
 
 
 def mutate_illtyped(rng, src):
@@ -128,6 +128,10 @@ def check(ctx):
         for s in cyc.CORPUS:
             ps.append({"mods": {"file:///w/main.oal": s}, "main": "file:///w/main.oal", "features": ["corpus"], "ast": None})
     progs.feature_stats(ctx, ps)
+    if not ctx.replay:
+        # the evaluator tie: outcome (document, located error, panic site) of eval.rs = outcome of Model/Eval.v
+        k = 1500 if ctx.thorough else 300
+        evaltie.run(ctx, ps[:k // 2] + ps[-k // 2:] + evaltie.known_witnesses() + evaltie.repo_corpus())
     res = progs.compile_many(ps)
     seen = set()
     for p, r in zip(ps, res):
